@@ -87,3 +87,7 @@
   (or (fp.isNaN x) (fp.isInfinite x) (and (fp.leq x maxF32as64) (fp.leq (fp.neg maxF32as64) x))))
 (define-fun isPosInf64 ((x (_ FloatingPoint 11 53))) Bool (and (fp.isInfinite x) (fp.isPositive x)))
 (define-fun isNegInf64 ((x (_ FloatingPoint 11 53))) Bool (and (fp.isInfinite x) (fp.isNegative x)))
+; ---- client reconnect back-off (C19), in nanoseconds: min(1 s, 25 ms * (2^a - 2)) for the
+; attempts the client sleeps on (a >= 2); written out as a table up to the cap
+(define-fun backoffNs ((a Int)) Int
+  (ite (= a 2) 50000000 (ite (= a 3) 150000000 (ite (= a 4) 350000000 (ite (= a 5) 750000000 1000000000)))))
